@@ -90,6 +90,11 @@ func (c *AesCipher) Decrypt(cipherTextWithIv []byte) ([]byte, error) {
 		return nil, fmt.Errorf("failed to create GCM: %w", err)
 	}
 
+	// gcm.Open panics on a nonce of the wrong size; the nonce comes from the wire.
+	if len(iv) != gcm.NonceSize() {
+		return nil, errors.New("invalid IV length")
+	}
+
 	// Decrypt the data
 	plainText, err := gcm.Open(nil, iv, cipherText, nil)
 	if err != nil {
